@@ -5,11 +5,16 @@ import json
 import os
 ROOT = os.path.dirname(os.path.dirname(os.path.abspath(__file__)))
 props = [json.loads(l) for l in open(os.path.join(ROOT, "properties.jsonl"))]
-checks = [json.load(open(p)) for p in sorted(glob.glob(os.path.join(ROOT, "manifest.d", "C*.json")))]
+enabled = open(os.path.join(ROOT, "manifest.d", "ENABLED")).read().split()
+checks = [json.load(open(p)) for p in sorted(glob.glob(os.path.join(ROOT, "manifest.d", "C*.json")))
+          if os.path.basename(p)[:-5] in enabled]
 claimed = {c["property_id"] for c in checks}
 na_path = os.path.join(ROOT, "manifest.d", "not_applicable.json")
 na_reasons = json.load(open(na_path)) if os.path.exists(na_path) else {}
 hooks = json.load(open(os.path.join(ROOT, "manifest.d", "hooks.json")))
+import subprocess
+log = subprocess.run(["git", "-C", "/repo", "log", "--format=%h %s"], stdout=subprocess.PIPE, text=True).stdout.split("\n")
+hooks["source_commits"] = [l.split()[0] for l in log if l[8:].startswith("verif hook")]
 m = {
     "version": 1,
     "setup_cmd": "./setup.sh",
